@@ -291,6 +291,20 @@ def run(ctx):
                 if set(got[g]) != exp or len(got[g]) != len(set(got[g])):
                     ctx.violation('a time-window listing consumed while another listing of the same cassette was in flight is not exact',
                                   {'windows': [list(map(str, w)) for w in wins], 'listing': g, 'outside': len(set(got[g]) - exp), 'missed': len(exp - set(got[g]))})
+    # a process that keeps running for days: the clock moves on AFTER the modules were imported (here: into the real future), lookups
+    # without an end are asked at each "now"
+    fake = FakeS3()
+    with fake.installed():
+        base_future = dt.datetime.utcnow().replace(minute=0, second=0, microsecond=0) + dt.timedelta(days=400)
+        instants = [base_future + dt.timedelta(hours=7 * i) for i in range(14)]          # four days
+        reader = fake.cassette('r', key_prefix='fut', read_only=True)
+        ids = {}
+
+        def at_future_now(now):
+            for s_ in (instants[0], now - dt.timedelta(hours=30), now - dt.timedelta(hours=1)):
+                query(ctx, reader, fake, ids, s_, None, now, None, 'open end, clock past the import time')
+            ctx.count('open_ended_queries_with_a_clock_after_import')
+        build(fake, instants, 'fut', ids=ids, each=at_future_now)
     if ctx.shard == 0:
         concurrent_day_change(ctx)
     ctx.sample({'recordings': 'one per hour from %s for 96 h' % T0, 'query': {'start': str(hours[20]), 'end': str(hours[30])},
